@@ -43,6 +43,7 @@ class Ctx:
         self.interp = Interp(proj, self.dom)
         self.dim = self.spec["dim"]
         attrs = {}
+        deferred = []
         summ = proj.ctor_summary(self.cls)
         for name, (kind, val) in summ.items():
             if kind == "const":
@@ -59,6 +60,8 @@ class Ctx:
                     attrs[name] = OpaqueFn("A", positive=True)
                 elif val == "source":
                     attrs[name] = None
+            elif kind == "expr" and hasattr(val, "env"):
+                deferred.append((name, val))
         for cname in self.spec["consts"]:
             if cname not in attrs:
                 raise AnalysisError("model %s: constructor no longer stores parameter %s" % (key, cname))
@@ -73,6 +76,22 @@ class Ctx:
             attrs[reg] = ObjStub(reg, {"merge": (lambda other: None)})
         self.selfobj = SelfObj(self.cls, attrs)
         self.neq = self.spec["neq"]
+        # attributes computed in a constructor from its parameters (self._c = gamma/(gamma-1)): evaluated
+        # with the bindings of THAT constructor frame -- the class's own parameter where it was forwarded,
+        # the default where it was not
+        init = proj.resolve(self.cls, "__init__")
+        for name, val in deferred:
+            env = {}
+            ok = True
+            for nm, (k2, v2) in ((n_, b_) for n_, b_ in val.env.items() if isinstance(b_, tuple) and len(b_) == 2):
+                if k2 == "param" and v2 in self.spec["consts"]:
+                    env[nm] = self.alg.sym(v2, **self.spec["consts"][v2])
+                elif k2 == "const" and isinstance(v2, (int, float, Fraction)) and not isinstance(v2, bool):
+                    env[nm] = Fraction(repr(v2)) if isinstance(v2, float) else v2
+            try:
+                attrs[name] = self.interp.eval(val.expr, env, init, 0)
+            except AnalysisError:
+                pass            # not a numeric expression of the parameters: left unknown (an error if read)
 
     # ---- symbolic states
     def prim(self, tag):
